@@ -21,7 +21,7 @@ a32eeaf C11 F8
 04482e7 C13 F9
 EOT
 else
-  for f in selftest/benign/*.diff selftest/benign3/*.diff selftest/benign2/*/patch.diff selftest/benign4/*/patch.diff; do echo "$(basename $(dirname $f))/$(basename $f)|$f|ALL" >> $jobs; done
+  for f in selftest/benign/*.diff selftest/benign3/*.diff selftest/benign2/*/patch.diff selftest/benign4/*/patch.diff selftest/benign5/*/patch.diff; do echo "$(basename $(dirname $f))/$(basename $f)|$f|ALL" >> $jobs; done
 fi
 worker() { k=$1; repo=/tmp/par-repo-$k; rm -rf $repo; rsync -a --exclude .git /repo/ $repo/; (cd $repo && git init -q && git add -A >/dev/null 2>&1 && git -c user.name=x -c user.email=x@x commit -qm base >/dev/null 2>&1)
   n=0
